@@ -356,6 +356,9 @@ func (x *X) SubstitutePipe(w *fsnotify.Watcher) {
 	rf := os.NewFile(uintptr(p[0]), "injected-inotify")
 	vsys.RegisterPipe(rf, p[0])
 	old := fsnotify.VerifSetInotifyFile(w, rf)
+	if old == nil {
+		panic(vsched.EngineError{Msg: "cannot substitute the inotify file: the back end has no field inotifyFile any more"})
+	}
 	vsys.Disown(old)
 	x.fds[fmt.Sprintf("pipe-w%d", x.widx(w))] = p[1]
 }
